@@ -322,6 +322,35 @@ impl Prop for C20 {
     fn id(&self) -> &'static str {
         "C20"
     }
+    fn enumerations(&self, tier: Tier) -> Vec<(String, String, Box<dyn Iterator<Item = Case20> + Send>)> {
+        // every law at (up to) three sites of every small pattern: C01's small scope and the macro-atom scope
+        let size = tier.pick(3, 4);
+        let nodes = crate::enumerate::up_to(&super::c01::enum_cfg(), size);
+        let inputs = crate::enumerate::inputs(&['a', 'b', '\n'], 3);
+        let scope = format!("all {} ASTs of size <= {} of C01's first scope x all 12 laws x 3 rewrite sites x flags {{'', m}} x all {} inputs over {{a,b,LF}} of length <= 3", nodes.len(), size, inputs.len());
+        let it = nodes.into_iter().flat_map(move |node| {
+            let inputs = inputs.clone();
+            (0..LAWS.len() as u8).flat_map(move |law| {
+                let (node, inputs) = (node.clone(), inputs.clone());
+                [0u16, 30000, 60000].into_iter().flat_map(move |pos| {
+                    let (node, inputs) = (node.clone(), inputs.clone());
+                    ["", "m"].into_iter().map(move |f| Case20 { ast: AstCase { node: node.clone(), flags: f.to_string(), inputs: Inputs::Lit(inputs.clone()) }, law, pos })
+                })
+            })
+        });
+        let msize = tier.pick(3, 4);
+        let mnodes = crate::enumerate::up_to(&super::c01::macro_cfg(), msize);
+        let minputs = crate::enumerate::inputs(&['a', 'b'], 4);
+        let scope2 = format!("all {} ASTs of size <= {} of the macro-atom scope x all 12 laws x 3 rewrite sites x all {} inputs over {{a,b}} of length <= 4", mnodes.len(), msize, minputs.len());
+        let it2 = mnodes.into_iter().flat_map(move |node| {
+            let inputs = minputs.clone();
+            (0..LAWS.len() as u8).flat_map(move |law| {
+                let (node, inputs) = (node.clone(), inputs.clone());
+                [0u16, 30000, 60000].into_iter().map(move |pos| Case20 { ast: AstCase { node: node.clone(), flags: String::new(), inputs: Inputs::Lit(inputs.clone()) }, law, pos })
+            })
+        });
+        vec![("exhaustive-small".into(), scope, Box::new(it)), ("exhaustive-nested-quantifiers".into(), scope2, Box::new(it2))]
+    }
     fn parts(&self, tier: Tier) -> Vec<Part<Case20>> {
         let mut cfg = GenCfg::basic(&['a', 'b', 'c']);
         cfg.w_esc = 0;
